@@ -1,0 +1,62 @@
+//go:build verif
+
+package window
+
+import "time"
+
+// Accessors for the verification harness (/verif). Compiled only with -tags verif.
+// They let the harness drive the event-time windows deterministically, one critical
+// section at a time, without the windows' own goroutines (Start() is not called).
+
+func verifWatermarkOf(w Window) *Watermark {
+	switch x := w.(type) {
+	case *TumblingWindow:
+		return x.watermark
+	case *SlidingWindow:
+		return x.watermark
+	case *SessionWindow:
+		return x.watermark
+	}
+	return nil
+}
+
+// VerifPopWatermark receives one queued watermark value without blocking.
+func VerifPopWatermark(w Window) (time.Time, bool) {
+	wm := verifWatermarkOf(w)
+	if wm == nil {
+		return time.Time{}, false
+	}
+	select {
+	case t := <-wm.watermarkChan:
+		return t, true
+	default:
+		return time.Time{}, false
+	}
+}
+
+// VerifTrigger runs the trigger goroutine's handler for one received watermark value.
+func VerifTrigger(w Window, t time.Time) {
+	switch x := w.(type) {
+	case *TumblingWindow:
+		x.checkAndTriggerWindows(t)
+	case *SlidingWindow:
+		x.checkAndTriggerWindows(t)
+	case *SessionWindow:
+		x.checkAndTriggerSessions(t)
+	}
+}
+
+// VerifWatermarkTick runs one ticker update of the watermark.
+func VerifWatermarkTick(w Window) {
+	if wm := verifWatermarkOf(w); wm != nil {
+		wm.update()
+	}
+}
+
+// VerifCurrentWatermark returns the current watermark (zero if none).
+func VerifCurrentWatermark(w Window) time.Time {
+	if wm := verifWatermarkOf(w); wm != nil {
+		return wm.GetCurrentWatermark()
+	}
+	return time.Time{}
+}
